@@ -454,7 +454,7 @@ func (p *Program) opTypes(fn *ssa.Function, si *storeFnInfo, op *StoreOp) {
 			case *ssa.Extract:
 				v = x.Tuple
 			case *ssa.Convert:
-				op.Types = []string{"raw:" + x.X.Type().String()}
+				op.Types = []string{"raw:bytes"}
 				return
 			case *ssa.Phi:
 				v = x.Edges[0]
@@ -489,7 +489,7 @@ func (p *Program) opTypes(fn *ssa.Function, si *storeFnInfo, op *StoreOp) {
 					}
 				case *ssa.Convert:
 					if b, ok := x.Type().Underlying().(*types.Basic); ok && b.Kind() == types.String {
-						op.Types = append(op.Types, "raw:[]byte")
+						op.Types = append(op.Types, "raw:bytes")
 					}
 				case *ssa.Phi:
 					work = append(work, x)
@@ -718,4 +718,51 @@ func (p *Program) KeyComponents(v ssa.Value, at ssa.Instruction) []KeyComponent 
 		break
 	}
 	return []KeyComponent{{Verb: "", Val: v, At: at}}
+}
+
+// PrefixTypes returns, per "module/prefix", the set of types marshalled into or decoded out of that prefix,
+// with the positions of the ops that contribute each type.
+func (p *Program) PrefixTypes(funcs []*ssa.Function) map[string]map[string][]string {
+	out := map[string]map[string][]string{}
+	add := func(name, typ, pos string) {
+		if out[name] == nil {
+			out[name] = map[string][]string{}
+		}
+		out[name][typ] = append(out[name][typ], pos)
+	}
+	for _, fn := range funcs {
+		si := p.storeInfo(fn)
+		prefixes := map[string]bool{}
+		hasIter := false
+		for _, o := range si.ops {
+			if o.Raw {
+				continue
+			}
+			name := o.Module + "/" + o.Prefix
+			prefixes[name] = true
+			if o.Kind == "Iterate" {
+				hasIter = true
+			}
+			for _, t := range o.Types {
+				add(name, t, p.InstrPos(o.Instr))
+			}
+			if _, ok := out[name]; !ok {
+				out[name] = map[string][]string{}
+			}
+		}
+		if hasIter && len(prefixes) == 1 {
+			var name string
+			for k := range prefixes {
+				name = k
+			}
+			types := append([]string{}, si.unmarsh...)
+			for _, an := range fn.AnonFuncs {
+				types = append(types, p.storeInfo(an).unmarsh...)
+			}
+			for _, t := range types {
+				add(name, t, p.Pos(fn.Pos()))
+			}
+		}
+	}
+	return out
 }
